@@ -1,6 +1,6 @@
-CONSTANTS N = 1  Calls <- C1  Kinds <- KRR  Steps <- S5_30  MaxSend = 10  Reconn <- RBoth  Overlap = TRUE
+CONSTANTS N = 1  Calls <- C1  Kinds <- KRR  Steps <- S5_30  MaxSend = 10  Reconn <- RBoth  Overlap = TRUE  KeepAlive = FALSE  PingNeutral = FALSE
 SPECIFICATION Spec
 CONSTRAINT SendBound
 INVARIANTS TypeOK RotationIsHealthy ProbeQueueSingle FailuresCounted CallsGoSomewhere
-PROPERTIES NeverOutWithoutFailure NeverOutBelowTwoFailures AllFailingLeaves ProbeSpacing ProbeIsOneCall ProbeDecides OnlyProbeReturns
+PROPERTIES NeverOutWithoutFailure NeverOutBelowTwoFailures AllFailingLeaves AllFailingLeavesAlways ProbeSpacing ProbeIsOneCall ProbeDecides OnlyProbeReturns
 CHECK_DEADLOCK FALSE
